@@ -23,13 +23,18 @@ def spec_strides(kind, sp, pat, es, ss, pv):
     return [C.prod(ee[:k]) for k in range(r)] if kind == 'lpad' else [C.prod(ee[k + 1:]) for k in range(r)]
 
 class VCase:
-    def __init__(self, inst, ext, strides, pv, seq, purpose, meta=None):
+    def __init__(self, inst, ext, strides, pv, seq, purpose, meta=None, alt=None):
         self.inst, self.ext, self.str, self.pv, self.seq, self.purpose, self.meta = inst, ext, strides, pv, seq, purpose, meta or {}
+        self.alt = alt        # (ext2, str2, pv2): a second mapping of the same type, used by `cm2`
         self.impl = self.model = None
     def line(self):
         s = G.line(self.inst) + ' ext=%s' % C.fmt(self.ext)
         if self.str is not None: s += ' str=%s' % C.fmt(self.str)
         if self.pv is not None: s += ' pv=%d' % self.pv
+        if self.alt is not None:
+            s += ' ext2=%s' % C.fmt(self.alt[0])
+            if self.alt[1] is not None: s += ' str2=%s' % C.fmt(self.alt[1])
+            if self.alt[2] is not None: s += ' pv2=%d' % self.alt[2]
         return s + ' seq=' + '/'.join(self.seq)
     def pub(self): return dict(line=self.line(), purpose=self.purpose, meta=self.meta)
 
@@ -60,23 +65,44 @@ def gen_cases(seed, tier, purposes):
             hs = [0, 7, 300, 1000] if acc != 'sh' else [0, 7]
             # ------------------------------------------------------------ C11: histories on the pool
             if 'C11' in purposes:
-                seq = ['pr']; n = 0
-                ctor_pool = ['cmp', 'cma'] + ([] if kind == 'stride' else ['cpd', 'cpa', 'cad', 'caa', 'csd', 'csa', 'cex'])
-                # the extents-only constructors of a padded layout do not take the run-time padding: they get their own view contents
-                for slot in range(rnd.randint(2, 3)):
-                    c = rnd.choice(ctor_pool); h = rnd.choice(hs)
-                    if c in ('cpd', 'cad', 'csd'): seq.append('%s:%d:%d:%s' % (c, slot, h, C.fmt(dynvals(pat, es))))
-                    elif c in ('cpa', 'caa', 'csa'): seq.append('%s:%d:%d:%s' % (c, slot, h, C.fmt(es)))
-                    elif c == 'cma': seq.append('cma:%d:%d:%d' % (slot, h, rnd.randint(1, 9)))
-                    else: seq.append('%s:%d:%d' % (c, slot, h))
-                    seq.append('ob:%d' % slot)
-                for _ in range(rnd.randint(4, 9) if not thorough else rnd.randint(10, 40)):
-                    op = rnd.choice(['cp', 'mv', 'as', 'ma', 'sw', 'sw', 'cv'])
-                    a, b = rnd.randrange(4), rnd.randrange(4)
-                    if op == 'cv': a = rnd.randrange(2); seq += ['cv:%d:%d' % (a, b), 'o2:%d' % a]
-                    else: seq += ['%s:%d:%d' % (op, a, b), 'ob:%d' % a, 'ob:%d' % b]
-                seq += ['un', 'df']
-                cases.append(VCase(inst, es, ss, pv, seq, 'C11'))
+                tw = list(G.twin(pat))
+                if any(p is None for p in pat) and rnd.random() < 0.5 and sp in (None, 'D'):
+                    es_c = list(tw)                                  # run-time extents equal to the all-static twin: c3 conversions are valid
+                    ss_c = chain_strides(rnd, es_c, (1, 1, 2)) if kind == 'stride' else None
+                else: es_c, ss_c = es, ss
+                # a second, different mapping of the same type
+                es2 = rand_ext(rnd, pat, H); ss2 = chain_strides(rnd, es2, (1, 2, 3)) if kind == 'stride' else None
+                pv2 = rnd.choice([None, 1, 2, 3, 5]) if (kind in ('lpad', 'rpad') and sp == 'D') else None
+                st2 = spec_strides(kind, sp, pat, es2, ss2, pv2)
+                span2 = 0 if any(e == 0 for e in es2) else 1 + sum((e - 1) * x for e, x in zip(es2, st2)) + (1 if kind == 'ulog' else 0)
+                stc = spec_strides(kind, sp, pat, es_c, ss_c, pv)
+                spanc = 0 if any(e == 0 for e in es_c) else 1 + sum((e - 1) * x for e, x in zip(es_c, stc)) + (1 if kind == 'ulog' else 0)
+                if max(span2, spanc) <= min(H, 900) and max((ss2 or [0]) + (ss_c or [0]) + [0]) <= H:
+                    seq = ['pr']; tag = [None] * 4
+                    ctor_pool = ['cmp', 'cma', 'cm2', 'cm2'] + ([] if kind == 'stride' else ['cpd', 'cpa', 'cad', 'caa', 'csd', 'csa', 'cex'])
+                    for slot in range(rnd.randint(2, 3)):
+                        c = rnd.choice(ctor_pool); h = rnd.choice(hs)
+                        if c in ('cpd', 'cad', 'csd'): seq.append('%s:%d:%d:%s' % (c, slot, h, C.fmt(dynvals(pat, es_c))))
+                        elif c in ('cpa', 'caa', 'csa'): seq.append('%s:%d:%d:%s' % (c, slot, h, C.fmt(es_c)))
+                        elif c in ('cma', 'cm2'): seq.append('%s:%d:%d:%d' % (c, slot, h, rnd.randint(1, 9)))
+                        else: seq.append('%s:%d:%d' % (c, slot, h))
+                        tag[slot] = 'B' if c == 'cm2' else 'A'
+                        seq.append('ob:%d' % slot)
+                    for _ in range(rnd.randint(4, 9) if not thorough else rnd.randint(10, 40)):
+                        op = rnd.choice(['cp', 'mv', 'as', 'ma', 'sw', 'sw', 'cv', 'c3'])
+                        a, b = rnd.randrange(4), rnd.randrange(4)
+                        if op == 'cv': a = rnd.randrange(2); seq += ['cv:%d:%d' % (a, b), 'o2:%d' % a]
+                        elif op == 'c3':
+                            ok = [q for q in range(4) if tag[q] is not None and (es_c if tag[q] == 'A' else es2) == tw]
+                            if not ok or sp not in (None, 'D'): continue
+                            a = rnd.randrange(2); b = rnd.choice(ok); seq += ['c3:%d:%d' % (a, b), 'o3:%d' % a]
+                        else:
+                            seq += ['%s:%d:%d' % (op, a, b), 'ob:%d' % a, 'ob:%d' % b]
+                            if op in ('cp', 'mv'): tag[a] = tag[b]
+                            elif op in ('as', 'ma') and tag[a] is not None and tag[b] is not None: tag[a] = tag[b]
+                            elif op == 'sw' and tag[a] is not None and tag[b] is not None: tag[a], tag[b] = tag[b], tag[a]
+                    seq += ['un', 'df']
+                    cases.append(VCase(inst, es_c, ss_c, pv, seq, 'C11', alt=(es2, ss2, pv2)))
             # ------------------------------------------------------------ C03: access forms
             if 'C03' in purposes and r >= 0 and span > 0:
                 h = rnd.choice([0, 7, 300] if acc != 'sh' else [0, 7]); seq = ['cma:0:%d:%d' % (h, rnd.randint(1, 9)), 'ob:0']
